@@ -160,37 +160,77 @@ def rule_x1(chk: Check, ir, ix: Index):
                     f"`{a}` builds a xonsh runtime call but nothing it must consume is xonsh-only and the rule `{r.name}` is reachable "
                     f"from Python-only contexts: text made only of Python lexemes can now produce a xonsh construct (over-acceptance)")
     chk.floor("X1-xonsh-confinement", 15)
-    # data gate of path literals
+    rule_path_literal_gate(chk)
+    rule_path_literal_wrap(chk)
+
+
+def rule_path_literal_gate(chk: Check):
+    """A string token is a path literal exactly when its *prefix* (what precedes the first quote character) contains a p/P;
+    the token handed on is the same literal without that one letter.  Decided by evaluating `_strip_path_prefix` over all
+    string prefixes x quote styles x bodies containing the other quote kind and the letter p (finite domain)."""
     sub = parse_py(repo.SUBHEADER)
     parser = repo.find_class(sub, "Parser")
     sp = repo.find_func(parser, "_strip_path_prefix")
-    rets = [n for n in ast.walk(sp) if isinstance(n, ast.Return) and not (isinstance(n.value, ast.Constant) and n.value.value is None)]
+    F = constfold.fold_tokenize()
+    prefixes = sorted(F.ns["_all_string_prefixes"]())  # type: ignore[attr-defined]
+
+    class FakeTok:
+        def __init__(self, string):
+            self.string = string
+
+        def _replace(self, **kw):
+            t = FakeTok(self.string)
+            for k, v in kw.items():
+                setattr(t, k, v)
+            return t
+
+    param = [a.arg for a in sp.args.args][0]
+    SQ, DQ = "'", '"'
+    bodies = ["x", "zip" + SQ + "s", "say " + DQ + "hi" + DQ, "p", "a" + SQ + "p" + DQ + "b"]
+    bad = []
+    n = 0
+    for pre in prefixes:
+        for q in (SQ, DQ, SQ * 3, DQ * 3):
+            for body in bodies:
+                if q[0] in body:
+                    continue
+                text = f"{pre}{q}{body}{q}"
+                n += 1
+                try:
+                    got = constfold.eval_pure_function(sp, {param: FakeTok(text)}, data_attrs=("string", "_replace"),
+                                                       extra={"TokenInfo": FakeTok})
+                except constfold.PureEvalError as e:
+                    chk.count("X1-path-literal-gate")
+                    chk.undecided("X1-path-literal-gate", "Parser._strip_path_prefix", f"{repo.SUBHEADER}:{sp.lineno}",
+                                  f"the helper is outside the evaluable subset: {e}")
+                    return
+                is_path = "p" in pre.lower()
+                if (got is not None) != is_path:
+                    bad.append((text, "path literal" if got is not None else "plain string"))
+                elif got is not None:
+                    want_pre = pre.lower().replace("p", "", 1)
+                    rest = text[len(pre):]
+                    cut = len(got.string) - len(rest)
+                    if not (cut >= 0 and got.string[cut:] == rest and got.string[:cut].lower() == want_pre):
+                        bad.append((text, f"handed on as {got.string!r}"))
     chk.count("X1-path-literal-gate")
-    ok = len(rets) == 1 and any(isinstance(i, ast.If) and norm_stmt(i.test) in ("'p' in prefix", '"p" in prefix') and
-                                any(rets[0] is x for x in ast.walk(i)) for i in ast.walk(sp))
-    chk.require(ok, "X1-path-literal-gate", "Parser._strip_path_prefix", f"{repo.SUBHEADER}:{sp.lineno}",
-                "a path-literal token may be recognised only under `'p' in prefix` (otherwise plain strings become path_literal calls)")
-    # the prefix is what precedes the *first* quote character, whichever kind it is (finite-domain evaluation)
-    idx_defs = [n for n in ast.walk(sp) if isinstance(n, ast.Assign) and norm_stmt(n.targets[0]) == "idx"]
+    chk.units["path_prefix_cases_evaluated"] = n
+    chk.require(not bad, "X1-path-literal-gate", "Parser._strip_path_prefix", f"{repo.SUBHEADER}:{sp.lineno}",
+                f"a string token must be a path literal exactly when its prefix has a p, and lose exactly that letter; differs on "
+                f"{bad[:3]} (a plain string such as \"zip's\" must never become a path_literal call, `P'/x'` must)")
+    # non-tokens are never path literals
     chk.count("X1-path-literal-gate")
-    if len(idx_defs) != 1:
-        chk.fail("X1-path-literal-gate", "Parser._strip_path_prefix:quote-index", f"{repo.SUBHEADER}:{sp.lineno}",
-                 "the position of the opening quote is no longer computed by a single expression")
-    else:
-        samples = ['"zip\'s"', "'say \"hi\"'", 'p"x"', "p'x'", '"a"', "'a'", "pf\"a'b\"", "rb\'\'\'x\'\'\'", 'pr"c:\\dir"', '"p"', "'p\"q'"]
-        bad = []
-        for t in samples:
-            want = min(i for i in (t.find("'"), t.find('"')) if i >= 0)
-            try:
-                got = constfold.fold_expr(idx_defs[0].value, {"text": t})
-            except Exception as e:
-                raise AnalysisError(f"quote index expression not evaluable: {e}")
-            if got != want:
-                bad.append((t, got, want))
-        chk.require(not bad, "X1-path-literal-gate", "Parser._strip_path_prefix:quote-index", f"{repo.SUBHEADER}:{idx_defs[0].lineno}",
-                    f"the string prefix is taken up to position {bad[0][1] if bad else ''} in {bad[0][0] if bad else ''} (the opening quote is at "
-                    f"{bad[0][2] if bad else ''}): text *inside* the literal is read as prefix letters, so a plain string containing the other "
-                    f"quote kind and a `p` becomes a path_literal call")
+    try:
+        r = constfold.eval_pure_function(sp, {param: object()}, data_attrs=("string", "_replace"), extra={"TokenInfo": FakeTok})
+    except constfold.PureEvalError:
+        r = "?"
+    chk.require(r is None, "X1-path-literal-gate", "Parser._strip_path_prefix:non-token", f"{repo.SUBHEADER}:{sp.lineno}",
+                "an already-built node (not a token) must not be taken for a path literal")
+
+
+def rule_path_literal_wrap(chk: Check):
+    sub = parse_py(repo.SUBHEADER)
+    parser = repo.find_class(sub, "Parser")
     cs = repo.find_func(parser, "concatenate_strings")
     calls = [n for n in ast.walk(cs) if isinstance(n, ast.Call) and any(
         isinstance(x, ast.Constant) and x.value == "__xonsh__.path_literal" for x in n.args)]
@@ -469,6 +509,38 @@ def rule_x8(chk: Check, ir, ix: Index):
                         f"(CPython: f-string: single '}}' is not allowed)")
 
 
+def rule_x10(chk: Check, ix: Index):
+    """X10: complex-literal patterns (`case 1 + 2j:`) — CPython requires a real number on the left and an imaginary one on the
+    right.  The two guards are evaluated over a finite domain of literal values (ints, floats, zero and non-zero imaginaries)."""
+    domain = [0, 7, -3, 0.0, 1.5, 0j, 1j, 0.0j, 2.5j]
+    for name, reject_when in (("Parser.ensure_real", lambda v: isinstance(v, complex)),
+                              ("Parser.ensure_imaginary", lambda v: not isinstance(v, complex))):
+        f = ix.get(name)
+        guards = [n for n in f.node.body if isinstance(n, ast.If) and any(
+            isinstance(c, ast.Call) and norm_stmt(c.func).startswith("self.raise_") for c in ast.walk(n))]
+        chk.count("X10-complex-literal-guards")
+        if len(guards) != 1:
+            chk.fail("X10-complex-literal-guards", name, f.where, "no single raising guard on the evaluated number")
+            continue
+        names = {n.id for n in ast.walk(guards[0].test) if isinstance(n, ast.Name)} - {"isinstance", "float", "int", "complex", "type", "abs"}
+        if len(names) != 1:
+            chk.undecided("X10-complex-literal-guards", name, f.where, f"guard `{norm_stmt(guards[0].test)}` is not a test of one value")
+            continue
+        var = next(iter(names))
+        bad = []
+        for v in domain:
+            try:
+                got = bool(constfold.fold_expr(guards[0].test, {var: v}, data_attrs=("imag", "real")))
+            except Exception as e:
+                bad.append((v, f"not evaluable: {e}"))
+                break
+            if got != reject_when(v):
+                bad.append((v, "rejected" if got else "accepted"))
+        chk.require(not bad, "X10-complex-literal-guards", name, f.where,
+                    f"the guard `{norm_stmt(guards[0].test)}` decides differently from CPython on {bad[:3]} "
+                    f"(e.g. `case 0j + 1j:` must be rejected: the left part has to be real whatever its value)")
+
+
 def run(chk: Check):
     chk.explanation = (
         "Decides the mechanisms that keep the xonsh extensions behind xonsh-only lexemes and make rejection total: (X1) every "
@@ -496,11 +568,14 @@ def run(chk: Check):
     rule_x6(chk, ir)
     rule_x7(chk)
     rule_x8(chk, ir, ix)
+    rule_x10(chk, ix)
     # rejection mechanisms that live in the scanner and in the string actions are necessary for C02 as much as for the
     # property they were written under: inconsistent dedent, unterminated one-line strings, bytes next to str/f-strings
     from .c08 import rule_l2, rule_l4
     rule_l4(chk, ix)
     rule_l2(chk, ix)
+    from .c09 import rule_k6
+    rule_k6(chk, constfold.fold_tokenize(), ix, False)
     from .. import typed
     typed.run().feed(chk, {"S1-joinedstr-bytes": "X9-bytes-mixing", "E4-mixed-literal-add": "X9-bytes-mixing"})
     chk.floor("X8-fstring-lone-rbrace", 1)
